@@ -267,6 +267,10 @@ def check(prop, tier, seed, selected, build_dir, workdir, args, t_start):
 
     def run_with_deadline(h):
         cfg = dict(R.config_for(h, tier))
+        if h in R.KNOWN_UNFINISHED and not os.environ.get("MQV_TRY_ALL"):
+            # measured on the reference machine (16 cores, 62 GB): does not finish; not run again unless asked
+            return dict(name=h, status="timeout", wall_s=0.0,
+                        error="not run: measured not to finish here (%s); set MQV_TRY_ALL=1 to try" % R.KNOWN_UNFINISHED[h])
         left = deadline - time.time()
         if left < 20:
             return dict(name=h, status="timeout", error="not started: the check's time budget was used up", wall_s=0.0)
